@@ -8,11 +8,12 @@ import (
 	"fmt"
 	"sort"
 	"strings"
+	"sync"
 
 	ipfslog "berty.tech/go-ipfs-log"
+	"berty.tech/go-ipfs-log/entry"
 	orbitdb "berty.tech/go-orbit-db"
 	"berty.tech/go-orbit-db/accesscontroller"
-	"berty.tech/go-ipfs-log/entry"
 	"berty.tech/go-orbit-db/iface"
 	"berty.tech/go-orbit-db/stores/basestore"
 	"berty.tech/go-orbit-db/stores/operation"
@@ -33,13 +34,13 @@ type WOp struct {
 // Writers is the writer world: N instances with distinct identities, each with its own replica of one
 // database (no pubsub replication; merges are explicit Sync actions with the other replica's heads).
 type Writers struct {
-	Kind    string
-	N       int
-	Net     *sim.Net
-	Inst    []*sim.Instance
-	Stores  []iface.Store
-	Ops     []WOp
-	Dup     bool // also offer re-announcement of heads the receiver already holds
+	Kind   string
+	N      int
+	Net    *sim.Net
+	Inst   []*sim.Instance
+	Stores []iface.Store
+	Ops    []WOp
+	Dup    bool // also offer re-announcement of heads the receiver already holds
 	// Observer: an extra replica (index N) that never writes, replicates over pubsub/direct channel and
 	// receives announcements by the listed routes ("sync", "topic", "direct"); Antichains also offers
 	// announcements of arbitrary single entries and concurrent pairs.
@@ -52,12 +53,16 @@ type Writers struct {
 	Addr       string
 	replicate  []bool
 	pubkeys    []string
+	// EmitHooks run synchronously inside every event-bus emission of replica i's instance
+	EmitHooks []func(w *Writers, i int, evt interface{})
+	mu        sync.Mutex
 	// oracle state
 	pending []explore.Violation
 	Oracles []func(w *Writers, hist []string) []explore.Violation
 	// per-step observers (called inside Do, before and after the action)
-	Before []func(w *Writers, action string)
-	After  []func(w *Writers, action string)
+	OnRestart []func(w *Writers, i int)
+	Before    []func(w *Writers, action string)
+	After     []func(w *Writers, action string)
 	// differential memory shared by all worlds of one search
 	Mem *Memory
 	// bookkeeping for oracles
@@ -87,6 +92,7 @@ func NewWriters(kind string, n int, ops []WOp) (*Writers, error) {
 			return nil, err
 		}
 		w.Inst = append(w.Inst, inst)
+		w.watch(i, inst)
 		ids = append(ids, inst.DB.Identity().ID)
 		w.pubkeys = append(w.pubkeys, string(inst.DB.Identity().PublicKey))
 	}
@@ -115,6 +121,21 @@ func NewWriters(kind string, n int, ops []WOp) (*Writers, error) {
 	return w, nil
 }
 
+func (w *Writers) watch(i int, inst *sim.Instance) {
+	inst.Bus.Monitor(func(evt interface{}) {
+		for _, h := range w.EmitHooks {
+			h(w, i, evt)
+		}
+	})
+}
+
+// Report records a violation found by a monitor (any goroutine).
+func (w *Writers) Report(v explore.Violation) {
+	w.mu.Lock()
+	w.pending = append(w.pending, v)
+	w.mu.Unlock()
+}
+
 // AddObserver adds the non-writing replica O (index N) with pubsub replication enabled.
 func (w *Writers) AddObserver() error {
 	p := w.Net.AddPeer("O")
@@ -127,7 +148,9 @@ func (w *Writers) AddObserver() error {
 		return err
 	}
 	w.Inst = append(w.Inst, inst)
-	w.Stores = append(w.Stores, s)
+	w.Stores = append(w.Stores, nil)
+	w.watch(len(w.Inst)-1, inst)
+	w.Stores[len(w.Stores)-1] = s
 	w.replicate = append(w.replicate, true)
 	w.Observer = true
 	return sim.Quiesce()
@@ -145,6 +168,10 @@ func (w *Writers) Restart(i int, fromSnapshot bool) error {
 		return err
 	}
 	w.Inst[i] = inst
+	w.watch(i, inst)
+	for _, f := range w.OnRestart {
+		f(w, i)
+	}
 	s, err := inst.DB.Open(bg, w.Addr, &orbitdb.CreateDBOptions{Replicate: boolp(w.replicate[i])})
 	if err != nil {
 		return err
@@ -509,8 +536,10 @@ func opClass(name string) string {
 }
 
 func (w *Writers) Check(hist []string) []explore.Violation {
+	w.mu.Lock()
 	out := w.pending
 	w.pending = nil
+	w.mu.Unlock()
 	for _, o := range w.Oracles {
 		out = append(out, o(w, hist)...)
 	}
